@@ -478,6 +478,17 @@ fn run_seq(id: usize, cmds: &[Cmd], w: &mut ShardWriter, st: &mut Stats, idx: &m
             return;
         }
     };
+    // finishing through the Build trait (generic code) must give the same calls as the inherent build()
+    let via_trait = catch(|| {
+        let mut svg = WithSvg::new(Rec::default());
+        for c in cmds {
+            issue(&mut svg, c);
+        }
+        Build::build(svg)
+    });
+    if via_trait.as_ref() != Some(&calls) {
+        st.fail(jobj(&[("what", jstr("finishing a WithSvg builder through the Build trait differs from WithSvg::build")), ("input", jstr(&format!("{} -> {:?} vs {:?}", text, via_trait, calls)))]));
+    }
     // the same sequence on the real Path builder (lyon's debug validator is active in debug builds)
     let real = catch(|| {
         let mut svg = lyon_path::Path::svg_builder();
